@@ -142,8 +142,29 @@ pub fn handle(op: &str, a: &[&str]) -> Option<Resp> {
         }
         ("rel.view", [allow, t]) => {
             let s = ds(t)?;
-            let (r, _errs) = Relations::parse_relaxed(&s, *allow == "1");
-            Some(Resp::ok(view_root(&r)))
+            let (r, errs) = Relations::parse_relaxed(&s, *allow == "1");
+            let view = view_root(&r);
+            // reader agreement (Props/C10Agree, oracle form): a text that BOTH the strict lossless reader
+            // and the lossy reader accept, on which no accessor panics, is read as the same structure —
+            // unless a name is directly followed by `!` inside a `<…>` group (`a <x!y>`: one term `x!y`
+            // for the lossless accessors, `x` and `!y` for the lossy reader; outside the Policy grammar)
+            let mut fail = None;
+            if *allow == "0" && errs.is_empty() && !view.contains("PANIC") && !bang_inside_term(&s) {
+                let l = lossy_view(&s);
+                if let Some(lv) = l.strip_prefix("ok E[").and_then(|x| x.strip_suffix(']')) {
+                    let lossless: String = r
+                        .entries()
+                        .map(|e| format!("{{{}}}", e.relations().map(|r| view_rel(&r)).collect::<Vec<_>>().join("|")))
+                        .collect();
+                    if lossless != lv {
+                        fail = Some(format!(
+                            "both readers accept the text and expose different structures: lossless {} lossy {}",
+                            lossless, lv
+                        ));
+                    }
+                }
+            }
+            Some(Resp::with(view, fail))
         }
         ("rel.version", [t]) => {
             let s = ds(t)?;
@@ -154,6 +175,27 @@ pub fn handle(op: &str, a: &[&str]) -> Option<Resp> {
         }
         _ => None,
     }
+}
+
+/// `bangInsideTerm` of Props/C10Agree.lean on the characters: an identifier character directly
+/// followed by `!` while inside `<…>` (`<` opens; `>`, `)`, `,`, `|` close — the last three so that
+/// the `<` of a version operator does not count)
+pub fn bang_inside_term(s: &str) -> bool {
+    let mut inside = false;
+    let cs: Vec<char> = s.chars().collect();
+    for (i, &c) in cs.iter().enumerate() {
+        match c {
+            '<' => inside = true,
+            '>' | ')' | ',' | '|' => inside = false,
+            _ => {
+                let ident = c.is_ascii_alphanumeric() || matches!(c, '.' | '+' | '~' | '-');
+                if inside && ident && cs.get(i + 1) == Some(&'!') {
+                    return true;
+                }
+            }
+        }
+    }
+    false
 }
 
 pub fn enc_version(v: &debversion::Version) -> String {
